@@ -152,6 +152,18 @@ class FiltersSet:
         """
         return '"%s"' % value.replace("\\", "\\\\").replace('"', '\\"')
 
+    def __add_match_type(self, cmd: commands.Command, tag: str) -> None:
+        """Give a match type to a test, requiring the extension it needs
+
+        What earlier parses happened to require (the process wide
+        list of loaded extensions) must not decide whether a filter
+        can be built.
+        """
+        cmd.check_next_arg("tag", tag, check_extension=False)
+        extension = commands.match_type.get("extension_values", {}).get(tag)
+        if extension:
+            self.require(extension)
+
     def __build_condition(
         self, condition: List[str], parent: commands.Command, tag: Optional[str] = None
     ) -> commands.Command:
@@ -166,7 +178,7 @@ class FiltersSet:
         if tag is None:
             tag = condition[1]
         cmd = commands.get_command_instance("header", parent)
-        cmd.check_next_arg("tag", tag)
+        self.__add_match_type(cmd, tag)
         if isinstance(condition[0], list):
             cmd.check_next_arg(
                 "stringlist", [self.__quote_if_necessary(c) for c in condition[0]]
@@ -238,7 +250,7 @@ class FiltersSet:
                     negate = True
                 else:
                     comp_tag = c[1]
-                cmd.check_next_arg("tag", comp_tag)
+                self.__add_match_type(cmd, comp_tag)
                 cmd.check_next_arg(
                     "stringlist",
                     "[{}]".format(",".join(self.__quote(val) for val in c[2])),
@@ -254,7 +266,7 @@ class FiltersSet:
                     negate = True
                 else:
                     comp_tag = c[1]
-                cmd.check_next_arg("tag", comp_tag)
+                self.__add_match_type(cmd, comp_tag)
                 for arg in c[2:]:
                     if isinstance(arg, str):
                         finalarg = self.__quote_if_necessary(arg)
@@ -273,7 +285,7 @@ class FiltersSet:
                     negate = True
                 else:
                     comp_tag = c[2]
-                cmd.check_next_arg("tag", comp_tag)
+                self.__add_match_type(cmd, comp_tag)
                 cmd.check_next_arg(
                     "stringlist", "[%s]" % (",".join(self.__quote(val) for val in c[3:]))
                 )
